@@ -78,6 +78,55 @@ impl<A: MarketAgent> MarketAgent for MWrap<A> {
     }
 }
 
+/// Probes whose *type text* mentions marker / container / primitive type names (`PhantomData`, `Option`, `Vec`,
+/// `()`, arrays, fn pointers, references): a derive that inspects field types textually must still update them.
+pub struct Marked<T> {
+    tag: u32,
+    _m: std::marker::PhantomData<T>,
+}
+impl<T> Marked<T> {
+    pub fn new(tag: u32) -> Self {
+        Marked { tag, _m: std::marker::PhantomData }
+    }
+}
+impl<T> Agent for Marked<T> {
+    fn update<R: RngCore>(&mut self, env: &mut Env, rng: &mut R) {
+        let n = env.get_orders().len();
+        log_push((2000 + self.tag, env as *const Env as usize, n, rng.next_u64(), rng.next_u64()));
+        env.place_order(Side::Bid, self.tag + 2, self.tag, Some(300 + self.tag)).unwrap();
+    }
+}
+impl Agent for Box<Probe> {
+    fn update<R: RngCore>(&mut self, env: &mut Env, rng: &mut R) {
+        (**self).update(env, rng)
+    }
+}
+/// a type whose *name* merely contains a marker-type name
+pub type PhantomDataAgent = Probe2;
+pub struct MMarked<T> {
+    tag: u32,
+    _m: std::marker::PhantomData<T>,
+}
+impl<T> MMarked<T> {
+    pub fn new(tag: u32) -> Self {
+        MMarked { tag, _m: std::marker::PhantomData }
+    }
+}
+impl<T> MarketAgent for MMarked<T> {
+    fn update<R: RngCore, const M: usize, const N: usize>(&mut self, env: &mut MarketEnv<M, N>, rng: &mut R) {
+        let a = (self.tag as usize) % M;
+        let n = env.get_orders(a).len();
+        log_push((2000 + self.tag, env as *const MarketEnv<M, N> as usize, n, rng.next_u64(), rng.next_u64()));
+        env.place_order(a, Side::Bid, self.tag + 2, self.tag, Some(300 + self.tag)).unwrap();
+    }
+}
+impl MarketAgent for Box<MProbe> {
+    fn update<R: RngCore, const M: usize, const N: usize>(&mut self, env: &mut MarketEnv<M, N>, rng: &mut R) {
+        (**self).update(env, rng)
+    }
+}
+pub type MPhantomDataAgent = MProbe2;
+
 pub struct MProbe {
     tag: u32,
 }
@@ -335,7 +384,7 @@ pub fn c20(ctx: &Ctx) -> i32 {
     let cov = json!({
         "evaluations": evals,
         "distinct_nontrivial": distinct.len(),
-        "rule": "cases = (struct shape, seed) pairs: 44 generated shapes per derive macro (1..8 fields, two probe agent types, repeated types, nested derived sets, the three built-in agent families in between), each run for 4 update+step rounds through the derived impl and through the hand-written field-by-field sequence from cloned generator states on fresh environments; compared call by call (field tag, identity of the environment object, orders visible at entry, first two generator words), then environments and final generator state; distinct = distinct (shape, final order list) hashes; non-trivial = shapes with at least 2 fields",
+        "rule": "cases = (struct shape, seed) pairs: 56 generated shapes per derive macro (1..8 fields, probe agent types incl. generic ones whose type text mentions PhantomData / Option / Vec / arrays / fn pointers / references / unit, boxed probes and type aliases, repeated types, nested derived sets, the three built-in agent families in between), each run for 4 update+step rounds through the derived impl and through the hand-written field-by-field sequence from cloned generator states on fresh environments; compared call by call (field tag, identity of the environment object, orders visible at entry, first two generator words), then environments and final generator state; distinct = distinct (shape, final order list) hashes; non-trivial = shapes with at least 2 fields",
         "samples": samples,
         "shapes": all.len(),
         "shapes_with_2_or_more_fields": shapes_multi,
